@@ -673,6 +673,36 @@ class Translator:
                     # pending) and the exception goes on
                     return '(tryElseM %s\n      %s)' % (self.block(s.body + rest, env, cname, end, brk),
                                                        self.block(hb, env, cname, end, brk))
+            if isinstance(s, ast.Expr) and isinstance(s.value, ast.Yield) and s.value.value is not None and '__y' in env:
+                s = ast.Assign(targets=[ast.Name(id='__y', ctx=ast.Store())],
+                               value=ast.Call(func=ast.Name(id='__append__', ctx=ast.Load()),
+                                              args=[ast.Name(id='__y', ctx=ast.Load()), s.value.value], keywords=[]))
+            if isinstance(s, ast.Expr) and isinstance(s.value, ast.Call) and isinstance(s.value.func, ast.Attribute) and \
+                    s.value.func.attr == '_check_limit_and_offset' and isinstance(s.value.func.value, ast.Name) and \
+                    s.value.func.value.id == 'self' and len(s.value.args) == 2 and not s.value.keywords:
+                w, env2 = fresh_w()
+                return ('(callProcM (bindM %s fun a_limit => bindM %s fun a_offset => bindM %s fun a_w =>\n      '
+                        'check_limit_and_offset_StorageS a_limit a_offset a_w) fun _r %s =>\n      %s)' % (
+                            self.expr(s.value.args[0], env, cname), self.expr(s.value.args[1], env, cname), env['__w'], w,
+                            self.block(rest, env2, cname, end, brk)))
+            if isinstance(s, ast.Assign) and len(s.targets) == 1 and isinstance(s.targets[0], ast.Name) and \
+                    isinstance(s.value, ast.Call) and isinstance(s.value.func, ast.Attribute) and s.value.func.attr == 'slice' and \
+                    len(s.value.args) == 2 and isinstance(s.value.func.value, ast.Call) and \
+                    isinstance(s.value.func.value.func, ast.Attribute) and s.value.func.value.func.attr == 'order_by' and \
+                    sess_call(s.value.func.value.func.value, 'query') and len(s.value.func.value.args) == 1:
+                ob = s.value.func.value.args[0]
+                q = s.value.func.value.func.value
+                if isinstance(ob, ast.Call) and isinstance(ob.func, ast.Attribute) and ob.func.attr == 'asc' and \
+                        isinstance(ob.func.value, ast.Attribute) and ob.func.value.attr == 'uid' and \
+                        len(q.args) == 1 and isinstance(q.args[0], ast.Name) and q.args[0].id == 'PolicyModel':
+                    self.fresh += 1
+                    r, w = 'r%d' % self.fresh, 'w%d' % self.fresh
+                    env2 = dict(env)
+                    env2[s.targets[0].id] = '(pure %s)' % r
+                    env2['__w'] = '(pure %s)' % w
+                    return '(sessSliceQueryM %s %s %s fun %s %s =>\n      %s)' % (
+                        self.expr(s.value.args[0], env, cname), self.expr(s.value.args[1], env, cname), env['__w'], r, w,
+                        self.block(rest, env2, cname, end, brk))
             if isinstance(s, ast.Expr) and sess_call(s.value, 'add') and len(s.value.args) == 1:
                 w, env2 = fresh_w()
                 return '(sessAddM %s %s fun %s =>\n      %s)' % (self.expr(s.value.args[0], env, cname), env['__w'], w,
@@ -1472,8 +1502,38 @@ def translate_sql(repo):
     out = ['import Model.PyPrim', '/-! GENERATED by harness/pytolean.py from vakt/storage/sql/__init__.py (class SQLStorage) - do not edit -/',
            'set_option linter.unusedVariables false', 'namespace Vakt.GenSql', 'open Vakt Vakt.PyPrim', '']
     done, failed = [], []
+    try:
+        tra = Translator(ast.parse(open(os.path.join(repo, 'vakt', 'storage', 'abc.py')).read()))
+        tra.effect_mode = 'sql'
+        f = tra.method('Storage', '_check_limit_and_offset')
+        params = [a.arg for a in f.args.args]
+        tra.attrs, tra.fresh = set(), 0
+        env = {p: '(pure p_%s)' % p for p in params}
+        env['__w'] = '(pure p_w)'
+        body = tra.block(f.body, env, 'Storage', end=lambda e: '(pairM cNone %s)' % e['__w'])
+        out.append('/-- `vakt.storage.abc.Storage._check_limit_and_offset`, as inherited by the SQL storage -/')
+        out.append('def check_limit_and_offset_StorageS (%s p_w : V) : M :=\n    %s\n' % (' '.join('p_%s' % p for p in params), body))
+        done.append('_check_limit_and_offset')
+    except Untranslatable as e:
+        failed.append(('_check_limit_and_offset', str(e)))
     tr = Translator(ast.parse(open(os.path.join(repo, 'vakt', 'storage', 'sql', '__init__.py')).read()))
     tr.effect_mode = 'sql'
+    try:
+        # get_all is itself a generator: the result is (the list of what it yields, the world)
+        f = tr.method('SQLStorage', 'get_all')
+        params = [a.arg for a in f.args.args]
+        tr.attrs, tr.fresh = set(), 0
+        tr._flush_handler = None
+        env = {p: '(pure p_%s)' % p for p in params}
+        env['__w'] = '(pure p_w)'
+        env['__y'] = '(pure y0)'
+        body = '(bindM cEmptyList fun y0 =>\n      %s)' % tr.block(f.body, env, 'SQLStorage',
+                                                                    end=lambda e: '(pairM %s %s)' % (e['__y'], e['__w']))
+        out.append('/-- `vakt.storage.sql.SQLStorage.get_all` - a generator: the list of what it yields, with the world -/')
+        out.append('def get_all_SQLStorage (%s p_w : V) : M :=\n    %s\n' % (' '.join('p_%s' % p for p in params), body))
+        done.append('get_all')
+    except Untranslatable as e:
+        failed.append(('get_all', str(e)))
     for m in SQL_METHODS:
         try:
             f = tr.method('SQLStorage', m)
